@@ -66,9 +66,12 @@ XKid(a, v, force) ==
   ELSE [tag |-> <<a.ns, a.l>>, ref |-> NoneN, xt |-> XType(a, v, force),
         lang |-> IF v.t = "lang" THEN v.lang ELSE "",
         text |-> IF v.t \in {"str", "lang", "lit"} /\ v.v = "e" THEN [k |-> "none"] ELSE XText(v)]
-XRecOf(rec, force) ==
+(* which of several subtype prov:type values becomes the element name depends on the iteration   *)
+(* order of a Python set: the observed element name (hint) resolves the choice                   *)
+XRecOf(rec, force, hint) ==
   LET subs == {x \in rec.attrs : Uri(x.a) = <<"prov#", "type">> /\ IsSubtypeOf(x.v, rec.k)}
-      used == IF subs = {} THEN {} ELSE {CHOOSE x \in subs : TRUE}
+      hinted == {x \in subs : SubtypeLabel[Uri(x.v.q)[2]] = hint}
+      used == IF subs = {} THEN {} ELSE IF hinted # {} THEN {CHOOSE x \in hinted : TRUE} ELSE {CHOOSE x \in subs : TRUE}
       label == IF used = {} THEN PNameOf[rec.k] ELSE SubtypeLabel[Uri((CHOOSE x \in used : TRUE).v.q)[2]]
   IN [name |-> label, id |-> IF rec.id.ok THEN N1(rec.id.p, rec.id.l) ELSE NoneN,
       kids |-> {XKid(x.a, x.v, force) : x \in rec.attrs \ used}]
@@ -79,15 +82,18 @@ XNsBundle(docst, bst) ==
   Override(XNsRoot(docst),
            Override(SeqToSet(bst.reg) \cup (IF bst.dflt # NONE THEN {<<"", bst.dflt>>} ELSE {}),
                     {<<"prov", ProvNS>>, <<"xsd", XsdNoHash>>, <<"xsi", XsiNS>>}))
-EncAX(ms, h, force) ==
+HintAt(recs, i) == IF i <= Len(recs) THEN recs[i].name ELSE ""
+EncAX(ms, h, force, obs) ==
   LET c == ms.con[h]
       st == ms.mgr[c.mgr]
   IN [ns |-> XNsRoot(st),
-      recs |-> [i \in 1..Len(c.recs) |-> XRecOf(c.recs[i], force)],
+      recs |-> [i \in 1..Len(c.recs) |-> XRecOf(c.recs[i], force, HintAt(obs.recs, i))],
       bundles |-> [i \in 1..Len(c.bundles) |->
                      LET b == ms.con[c.bundles[i]] IN
                      [id |-> N1(b.id.p, b.id.l), ns |-> XNsBundle(st, ms.mgr[b.mgr]),
-                      recs |-> [j \in 1..Len(b.recs) |-> XRecOf(b.recs[j], force)]]]]
+                      recs |-> [j \in 1..Len(b.recs) |->
+                                  XRecOf(b.recs[j], force,
+                                         IF i <= Len(obs.bundles) THEN HintAt(obs.bundles[i].recs, j) ELSE "")]]]]
 
 (* ---- the lexed text in the same form ---- *)
 XN(s) == IF s.qn = <<>> THEN NoneN ELSE <<s.qn[1]>>
